@@ -37,6 +37,9 @@ impl Death {
 /// Ok(exit code) or Err(death). `watch` = status file to watch for hangs (whole-check mode);
 /// otherwise a plain wall-clock limit applies.
 fn run_child(args: &[String], status: Option<&StatusFile>, quiet: bool, limit: Option<Duration>) -> Result<i32, (Death, Vec<u64>)> {
+    run_child_opts(args, status, quiet, limit, true)
+}
+fn run_child_opts(args: &[String], status: Option<&StatusFile>, quiet: bool, limit: Option<Duration>, detect_hangs: bool) -> Result<i32, (Death, Vec<u64>)> {
     let exe = std::env::current_exe().expect("current_exe");
     let mut cmd = Command::new(exe);
     cmd.args(args);
@@ -60,7 +63,7 @@ fn run_child(args: &[String], status: Option<&StatusFile>, quiet: bool, limit: O
             Ok(None) => {}
             Err(_) => return Ok(2),
         }
-        if let Some(s) = status {
+        if let (Some(s), true) = (status, detect_hangs) {
             for k in 0..STATUS_SLOTS {
                 let v = s.get(k);
                 if v != seen[k].0 {
@@ -143,7 +146,23 @@ pub fn check(args: &[String]) -> i32 {
         println!("VIOLATION property={id} replay={}", path.display());
         return 1;
     }
-    println!("HARNESS-ERROR property={id} the checking process died or hung, but none of the in-flight runs does so on its own");
+    if matches!(death, Death::Hang) {
+        // A run that was merely slow (a loaded machine, a change that makes some executions very
+        // expensive but finite): no run hangs on its own, so let the check run to its own verdict,
+        // this time without a progress limit.
+        println!("[{id}] no in-flight run hangs on its own: running the check again without a progress limit");
+        let status2 = StatusFile::open(&status_path);
+        let r = run_child_opts(&child_args, status2.as_ref(), false, None, false);
+        let _ = std::fs::remove_file(&status_path);
+        return match r {
+            Ok(code) => code,
+            Err(_) => {
+                println!("HARNESS-ERROR property={id} the checking process died on the second attempt");
+                2
+            }
+        };
+    }
+    println!("HARNESS-ERROR property={id} the checking process was killed by a signal, but none of the in-flight runs dies on its own");
     2
 }
 
